@@ -144,9 +144,11 @@ The hypotheses, precisely (all decidable, evaluated by the driver for every prog
   the walk's language outside the class of the known finding.
 * `fnDistinctKeys3 fn`: the dictionaries of `GraphBuilder` are keyed by AST node objects and the node index by CFG nodes;
   in the model the keys are the serialiser's preorder ids.  Ids of one family (section keys, conditional-section keys,
-  CFG nodes) must be pairwise distinct; they are for every serialised program except those on which the real builder
-  itself fails an `assert` (a try-else block that starts with an `if`: the try keys the else block by its first
-  statement, the `if` keys its own section by the same node).
+  CFG nodes) must be pairwise distinct; they are for every serialised program: the keys of one family are ids of distinct
+  AST nodes (conditional sections: `If` nodes, `Try` nodes for their else block, first handlers; sections: loops, functions,
+  `Try` nodes for their `finally` block, handlers).  The driver evaluates the predicate for every program of every run.
+  (Before the fix of finding C05-try-else-if the else block was keyed by its first statement, which clashed with an `if`
+  there.)
 * `rootGraph fn = some g`: the model's `cfg.build` does not raise.
 
 The verified-checker route (`C05_paths_checker` on the implementation's real graph, equal to the model's) stays in place
@@ -259,6 +261,25 @@ example : walkFn 40 exFn3 [1, 1, 0] = ([2, 5, 9, 10, 29, 32, 5, 35], .ret, []) :
 example : walkFn 40 exFn3 [1, 0, 1] = ([2, 5, 9, 12, 13, 29, 32, 35], .ret, []) := by decide
 /-- … `return` through both `finally` blocks -/
 example : walkFn 40 exFn3 [1, 0, 0, 1] = ([2, 5, 9, 12, 15, 16, 29, 32], .ret, []) := by decide
+
+/-- A `try` whose `else` block starts with an `if` (finding C05-try-else-if, fixed: the block's conditional section is
+keyed by the `Try` node): `def f(a): try: x = a  except E: y = a  else: (if a: return a); z = a  finally: w = a`. -/
+def exFn4 : Stmt :=
+  .functionDef 1 "f" (.arguments 2 [] [.arg 3 "a" []] [] [] [] [] [])
+    [.try_ 4
+      [.assign 5 [.name 6 "x" .store] (.name 7 "a" .load)]
+      [.handler 8 [.name 9 "E" .load] [] [.assign 10 [.name 11 "y" .store] (.name 12 "a" .load)]]
+      [.if_ 13 (.name 14 "a" .load) [.ret 15 [.name 16 "a" .load]] [],
+       .assign 17 [.name 18 "z" .store] (.name 19 "a" .load)]
+      [.assign 20 [.name 21 "w" .store] (.name 22 "a" .load)]]
+    [] [] false
+
+example : fnSupported exFn4 = true ∧ fnParsedShape exFn4 = true ∧ fnNoJumpInHandlerOfTryWithFinally exFn4 = true ∧
+    fnFrag3 exFn4 = true := by decide
+set_option maxRecDepth 8000 in
+example : fnDistinctKeys3 exFn4 = true ∧ (rootGraph exFn4).isSome = true := by decide
+/-- the else block runs after the body, its `return` passes the `finally` block -/
+example : walkFn 20 exFn4 [1] = ([2, 5, 14, 15, 20], .ret, []) := by decide
 
 /-! ## The known violation of the full statement on the pinned code
 
